@@ -1,20 +1,51 @@
 """Per-property decision procedures: which MC configurations, which driver scenarios, which diagnostics count."""
-import json, os, re, sys, time
+import json, os, re, sys, time, hashlib
 from . import runner
 from .runner import ToolError, log, ROOT, WORK
 
-PIPE_Q = ("MC_Pipeline.tla", "MC_Pipeline_quick.cfg")
-PIPE_T = ("MC_Pipeline.tla", "MC_Pipeline_thorough.cfg")
 
-# id -> description of the check.  scen: list of (harness kind, scenario name); mc: per tier
+def mcq(name):
+    return {"quick": [(f"{name}.tla", f"{name}_quick.cfg")], "thorough": [(f"{name}.tla", f"{name}_thorough.cfg")]}
+
+
+def mc_join(*parts):
+    return {t: sum((p[t] for p in parts), []) for t in ("quick", "thorough")}
+
+
+PIPE = mcq("MC_Pipeline")
+LEMMAS = mcq("MC_Lemmas")
+MSEL = mcq("MC_MaskSelect")
+
+# id -> description of the check.
+#   scen: list of (harness kind, scenario name, required); a 'hooked' scenario that is not required is skipped (and noted in
+#         the evidence) when the hooked harness does not build against /repo's tree -- the public-API scenarios still decide.
+#   mc:   per tier, list of (module, cfg) model-checking runs (read nothing from /repo)
 PROPS = {
-    "C01": dict(scen=[("core", "cells")], mc={"quick": [PIPE_Q], "thorough": [PIPE_T]},
-                invariants="RoundTripInv", ref="7/C01"),
-    "C03": dict(scen=[("core", "cells")], mc={"quick": [PIPE_Q], "thorough": [PIPE_T]},
-                invariants="FunctionPatternsInv", ref="7/C03"),
-    "C15": dict(scen=[("core", "cells")], mc={"quick": [PIPE_Q], "thorough": [PIPE_T]},
-                invariants="LabelsExact (TV), FunctionPatternsInv (MC)", ref="7/C15"),
+    "C01": dict(scen=[("core", "cells", True)], mc=PIPE, invariants="RoundTripInv (MC), RoundTrip (TV)"),
+    "C02": dict(scen=[("core", "cells", True), ("core", "corrupt", True), ("hooked", "tables", False)], mc=mc_join(PIPE, LEMMAS),
+                invariants="BlocksValidInv (MC), CodewordCount/RemainderBitsZero/BlockShape/SyndromesZero + Corrupt/Recover (TV), BMLemma"),
+    "C03": dict(scen=[("core", "cells", True), ("hooked", "maskop", False), ("hooked", "tables", False)], mc=mc_join(PIPE, LEMMAS),
+                invariants="FunctionPatternsInv (MC), FunctionPatternsExact/NothingOutsideSquare (TV), LayoutLemmas"),
+    "C04": dict(scen=[("core", "formats", True), ("hooked", "tables", False)], mc=mc_join(PIPE, LEMMAS),
+                invariants="FormatVersionTruthInv (MC), FormatCopiesExact/VersionInfoExact/ReportedFieldsTruth/ReportedModeTruth/ForcedOptionsHonoured (TV), TableLemmas (BCH distances)"),
+    "C05": dict(scen=[("core", "thresholds", True), ("hooked", "versionget", False)], mc=mc_join(PIPE, LEMMAS),
+                invariants="MinimalVersionInv, OutcomeTotal (MC), MinimalVersion/ExpectedOutcome (TV), EncodeLemmas (monotonicity)"),
+    "C06": dict(scen=[("core", "cells", True), ("hooked", "encode", False), ("hooked", "tables", False)], mc=PIPE,
+                invariants="DataCodewordsISOInv, StagedEqualsClosedForm (MC), DataCodewordsISO (TV)"),
+    "C07": dict(scen=[("core", "cells", True), ("hooked", "rs", False)], mc=mc_join(PIPE, LEMMAS),
+                invariants="ECIsRemainderInv (MC), ECIsRemainder/Poly/Division/DivBlock (TV), FieldLemmas"),
+    "C08": dict(scen=[("core", "maskgroups", True), ("hooked", "maskop", False)], mc=mc_join(PIPE, LEMMAS),
+                invariants="MaskExactInv (MC), same-unmasked-symbol per group + MaskOp (TV), MaskLemmas"),
+    "C09": dict(scen=[("core", "modes", True), ("hooked", "bestmode", False)], mc=mc_join(PIPE, LEMMAS),
+                invariants="AutoModeCompactInv (MC), AutoModeCompact/BestMode (TV), EncodeLemmas"),
+    "C10": dict(scen=[("core", "total", True)], mc=PIPE, invariants="OutcomeTotal (MC), Panic/Timeout outcomes match no action (TV)"),
+    "C11": dict(scen=[("hooked", "candidates", True)], mc=mc_join(MSEL, PIPE), apalache=True,
+                invariants="MaskMinimalInv (MC_Pipeline), Minimal/IndInv (MC_MaskSelect, Apalache), chosen in argmin of Penalty over recorded candidates (TV)"),
+    "C15": dict(scen=[("core", "cells", True), ("hooked", "maskop", False)], mc=mc_join(PIPE, LEMMAS),
+                invariants="LabelsExact, DataLabelCount (TV), FunctionPatternsInv (MC), LayoutLemmas"),
 }
+# non-listed growth checks (./check growth): never reported under a listed property id
+GROWTH = dict(scen=[("hooked", "compact", True)], mc={"quick": [], "thorough": []})
 
 
 def load_known():
@@ -31,25 +62,28 @@ def load_known():
 
 
 def diag_key(d):
-    return f"{d.get('tag','')}|{d.get('why','')}".replace(" ", "_")
+    return d.get("key") or f"{d.get('tag','')}|{d.get('why','')}".replace(" ", "_")
+
+
+def shorten(e, depth=0):
+    if isinstance(e, dict):
+        return {k: shorten(v, depth + 1) for k, v in e.items()}
+    if isinstance(e, list):
+        if len(json.dumps(e)) > 300:
+            if e and all(isinstance(x, int) for x in e):
+                return e[:16] + [f"... {len(e)} ints"]
+            return [shorten(x, depth + 1) for x in e[:2]] + [f"... {len(e)} items"]
+        return e
+    if isinstance(e, str) and len(e) > 300:
+        return e[:300] + "..."
+    return e
 
 
 def sample_event(line):
     try:
-        e = json.loads(line)
+        return shorten(json.loads(line))
     except Exception:
         return line[:200]
-    o = e.get("out")
-    if isinstance(o, dict):
-        for k in ("vals", "types"):
-            if k in o:
-                o[k] = f"<{len(o[k])} packed rows>"
-    if isinstance(e.get("input"), list) and len(e["input"]) > 24:
-        e["input"] = e["input"][:24] + [f"... {len(e['input'])} bytes"]
-    for k in list(e.keys()):
-        if isinstance(e[k], list) and len(json.dumps(e[k])) > 400:
-            e[k] = f"<{len(e[k])} items>"
-    return e
 
 
 def write_evidence(pid, tier, seed, level, coverage, assumptions, wall, violations):
@@ -60,11 +94,37 @@ def write_evidence(pid, tier, seed, level, coverage, assumptions, wall, violatio
         json.dump(ev, f, indent=1)
 
 
-def run_property(pid, tier, seed, replay=None):
+APALACHE_OBLIGATIONS = [("Init => IndInv", ["--init=Init", "--inv=IndInv", "--length=0"]),
+                        ("IndInv /\\ Next => IndInv'", ["--init=IndInit", "--inv=IndInv", "--length=1"]),
+                        ("IndInv => Minimal", ["--init=IndInit", "--inv=Minimal", "--length=0"])]
+
+
+def run_apalache(wd):
+    """Inductive invariant of the selection loop for unbounded scores.  Reads nothing from /repo: failure = tool error."""
+    import shutil, subprocess
+    d = os.path.join(wd, "apalache")
+    shutil.rmtree(d, ignore_errors=True)
+    os.makedirs(d)
+    shutil.copy(os.path.join(runner.SPEC, "MaskSelect.tla"), d)
+    res = []
     t0 = time.time()
-    spec = PROPS[pid]
+    for name, args in APALACHE_OBLIGATIONS:
+        rc, out = runner.sh(["apalache-mc", "check", *args, f"--out-dir={d}/out", "MaskSelect.tla"], 600, cwd=d, env={"JAVA_TOOL_OPTIONS": "-Xmx4g"})
+        ok = rc == 0 and "EXITCODE: OK" in out
+        if not ok:
+            raise ToolError(f"Apalache did not discharge '{name}' (rc={rc}):\n" + "\n".join(out.splitlines()[-15:]))
+        res.append(name)
+    shutil.rmtree(d, ignore_errors=True)
+    log(f"[apalache] {len(res)} obligations discharged in {time.time()-t0:.1f}s")
+    return res
+
+
+def run_property(pid, tier, seed, replay=None, spec=None):
+    t0 = time.time()
+    spec = spec or PROPS[pid]
     wd = os.path.join(WORK, f"{pid}_{tier}")
     os.makedirs(wd, exist_ok=True)
+    notes = []
     # 1. model checking of the design (reads nothing from /repo: failure = tool error)
     mc_states = mc_trans = 0
     mc_runs = []
@@ -74,27 +134,48 @@ def run_property(pid, tier, seed, replay=None):
             mc_states += r["distinct"]
             mc_trans += r["states"]
             mc_runs.append({"module": mod, "config": cfg, "distinct_states": r["distinct"], "states_generated": r["states"], "wall_s": round(r["wall"], 1)})
+        if spec.get("apalache"):
+            obl = run_apalache(wd)
+            mc_runs.append({"module": "MaskSelect.tla", "checker": "apalache-mc", "obligations_discharged": obl})
     # 2. drive the implementation
     all_lines = []
-    tv_total = {"events": 0, "diags": [], "notes": [], "wall": 0.0, "states": 0}
+    tv_total = {"events": 0, "diags": [], "notes": [], "wall": 0.0, "states": 0, "cached": 0}
     want_ids = None
+    hdr = {}
     if replay:
         hdr = json.loads(open(replay).readline())
         seed, tier, want_ids = hdr["seed"], hdr["tier"], set(hdr["ids"])
-    for kind, scen in spec["scen"]:
-        binary = runner.build_harness(kind)
+    ran = []
+    for kind, scen, required in spec["scen"]:
+        if replay and hdr.get("scenario") and hdr["scenario"] != scen:
+            continue
+        try:
+            binary = runner.build_harness(kind)
+        except ToolError as e:
+            if required:
+                raise
+            notes.append(f"hook tier unavailable, scenario '{scen}' skipped: {str(e)[:300]}")
+            log(f"[skip] {scen}: hooked harness does not build; the public-API scenarios decide")
+            continue
         evp = os.path.join(wd, f"{scen}.ndjson")
         runner.drive(binary, scen, seed, tier, evp)
         if want_ids is not None:
-            keep = [l for l in open(evp).read().split("\n") if l.strip() and (json.loads(l)["id"] in want_ids or json.loads(l).get("grp", 0) in hdr.get("grps", []))]
+            keep = []
+            for l in open(evp).read().split("\n"):
+                if l.strip():
+                    j = json.loads(l)
+                    if j["id"] in want_ids or (j.get("grp", 0) and j.get("grp", 0) in hdr.get("grps", [])):
+                        keep.append(l)
             open(evp, "w").write("\n".join(keep) + "\n")
         lines = [l for l in open(evp).read().split("\n") if l.strip()]
         all_lines += lines
         r = runner.validate_trace(evp, os.path.join(wd, "tv_" + scen))
         for k in ("events", "wall", "states"):
             tv_total[k] += r[k]
+        tv_total["cached"] += 1 if r.get("cached") else 0
         tv_total["diags"] += [dict(d, scenario=scen) for d in r["diags"]]
         tv_total["notes"] += r["notes"]
+        ran.append(scen)
     # 3. verdict: only diagnostics of this property; known findings subtracted
     own = [d for d in tv_total["diags"] if d["property"] == pid]
     others = {}
@@ -103,7 +184,7 @@ def run_property(pid, tier, seed, replay=None):
             others[d["property"]] = others.get(d["property"], 0) + 1
     tool = [d for d in tv_total["diags"] if d["property"] == "TOOL"]
     if tool:
-        raise ToolError(f"trace contains events the trace specification does not know: {tool[:3]}")
+        raise ToolError(f"trace contains events the trace specification cannot place: {tool[:3]}")
     known = [k for k in load_known() if k["property"] == pid]
     kkeys = {k["key"] for k in known}
     hits = [d for d in own if diag_key(d) in kkeys]
@@ -116,26 +197,31 @@ def run_property(pid, tier, seed, replay=None):
         m = re.search(r'"tag":"([^"]*)"', l)
         if m:
             tags[m.group(1)] = tags.get(m.group(1), 0) + 1
-    # distinct non-trivial = distinct (tag, input, opts) combinations
-    distinct = len({re.sub(r'"id":\d+,?', "", re.sub(r'"out":\{.*', "", l)) for l in all_lines})
+    # distinct = distinct events once the running id and the observed output are removed: (scenario cell, input, options)
+    distinct = len({hashlib.md5(re.sub(r'"id":\d+,?', "", re.sub(r'"(out|obs|cand|rems|after|vals)":.*', "", l)).encode()).hexdigest() for l in all_lines})
+    n = len(all_lines)
+    picks = [all_lines[i] for i in sorted({0, n // 3, (2 * n) // 3, n - 1}) if 0 <= i < n]
     coverage = {
-        "states": max(mc_states, 1) if mc_runs else tv_total["states"] or 1,
-        "transitions": max(mc_trans, 1) if mc_runs else tv_total["states"] or 1,
+        "states": max(mc_states, 1) if mc_runs else max(tv_total["states"], 1),
+        "transitions": max(mc_trans, 1) if mc_runs else max(tv_total["states"], 1),
         "traces_validated_against_impl": tv_total["events"],
-        "samples": [sample_event(l) for l in (all_lines[:2] + all_lines[len(all_lines)//2:len(all_lines)//2+1] + all_lines[-1:])],
+        "samples": [sample_event(l) for l in picks],
         "evaluations": tv_total["events"],
         "distinct_nontrivial": distinct,
-        "rule": "one evaluation = one event recorded from the real crate and judged by TLC against spec/Trace.tla; distinct = distinct (scenario cell, input, options) triples; every event is non-trivial in that all property predicates are evaluated on the implementation's observed output",
+        "rule": "one evaluation = one event recorded from the real crate and judged by TLC against spec/Trace.tla; distinct = distinct (scenario cell, input, options) triples; every event is non-trivial in that the property predicates are evaluated on the implementation's observed output",
         "model_checking_runs": mc_runs,
         "distinct_cells": len(tags),
         "tv_wall_s": round(tv_total["wall"], 1),
+        "tv_results_reused_for_identical_trace": tv_total["cached"],
         "diagnostics_own": len(own), "diagnostics_known": len(hits),
         "other_property_diagnostics": others,
         "spec_invariants": spec.get("invariants", ""),
-        "scenarios": [s for _, s in spec["scen"]],
+        "scenarios": ran,
+        "notes": notes + [json.dumps(x)[:400] for x in tv_total["notes"][:3]],
+        "exhaustive": False,
     }
     assumptions = ["TLC evaluates the TLA+ operators correctly", "payload contents are sampled (seeded); configuration cells are enumerated",
-                   "harness sensors project implementation output faithfully (matrix packer)"]
+                   "harness sensors project implementation output faithfully"]
     nviol = 0
     if fresh:
         os.makedirs(os.path.join(ROOT, "replay"), exist_ok=True)
@@ -143,22 +229,23 @@ def run_property(pid, tier, seed, replay=None):
         for l in all_lines:
             m = re.search(r'"id":(\d+)', l)
             if m:
-                byid[int(m.group(1))] = l
+                byid.setdefault(int(m.group(1)), []).append(l)
         groups = {}
         for d in fresh:
-            groups.setdefault(d["why"], []).append(d)
-        for n, (why, ds) in enumerate(sorted(groups.items())):
-            path = os.path.join(ROOT, "replay", f"{pid}-{tier}-{seed}-{n}.ndjson")
+            groups.setdefault((d["scenario"], d["why"]), []).append(d)
+        for n_, ((scen, why), ds) in enumerate(sorted(groups.items())):
+            path = os.path.join(ROOT, "replay", f"{pid}-{tier}-{seed}-{n_}.ndjson")
             ids = sorted({d["id"] for d in ds})[:20]
-            grps = sorted({json.loads(byid[i]).get("grp", 0) for i in ids if i in byid} - {0})
+            evs = [l for i in ids for l in byid.get(i, []) if f'"tag":"{[d for d in ds if d["id"] == i][0].get("tag","")}"' in l]
+            grps = sorted({json.loads(l).get("grp", 0) for l in evs} - {0})
             with open(path, "w") as f:
-                f.write(json.dumps({"property": pid, "why": why, "seed": seed, "tier": tier, "ids": ids, "grps": grps, "count": len(ds),
+                f.write(json.dumps({"property": pid, "why": why, "scenario": scen, "seed": seed, "tier": tier, "ids": ids, "grps": grps, "count": len(ds),
                                     "replay": f"./check {pid} --replay {path}"}) + "\n")
-                for i in ids:
-                    if i in byid:
-                        f.write(byid[i] + "\n")
+                for l in evs:
+                    f.write(l + "\n")
             print(f"VIOLATION property={pid} replay={path}")
-            log(f"  {pid}: {len(ds)} event(s): {why}; e.g. tag={ds[0].get('tag')} id={ds[0].get('id')}")
+            log(f"  {pid}: {len(ds)} event(s) in scenario {scen}: {why}; e.g. tag={ds[0].get('tag')} id={ds[0].get('id')}")
             nviol += 1
-    write_evidence(pid, tier, seed, "model_checking", coverage, assumptions, time.time() - t0, nviol)
+    if not pid.startswith("G"):
+        write_evidence(pid, tier, seed, "model_checking", coverage, assumptions, time.time() - t0, nviol)
     return 1 if nviol else 0
